@@ -49,7 +49,20 @@ fn make_lock(fam: u8, p: u64, program: &[(u8, u64)], funding_height: u64) -> Loc
     let enc = |ops: Vec<ROp>| refvm::encode(&ops).unwrap();
     let base = Lock { fam: "", cov: vec![], adata: vec![], value: 1000 + (p % 7) as u128, denom: Denom::Mel, sig: None, preimage: None };
     let key = (p % NKEYS as u64) as usize;
-    match fam % 14 {
+    match fam % 15 {
+        14 => {
+            // "NOT signed by K" / k-of-n style: a signature check on (possibly doubly) abnormal operands whose outcome
+            // is negated, so that 'the check pushes 0' releases the coin while 'the check fails' does not
+            let keylen = [32usize, 33, 31, 32, 40][(p % 5) as usize];
+            let siglen = [64usize, 65, 64, 63, 80][((p >> 3) % 5) as usize];
+            let msg: ROp = if (p >> 6) % 4 == 0 { ROp::PushIC(be(5)) } else { ROp::PushB(vec![3u8; 10 + ((p >> 8) % 30) as usize]) };
+            let n = [0u16, 9, 10, 32, 65535][((p >> 13) % 5) as usize];
+            Lock {
+                fam: "negated-signature-check",
+                cov: enc(vec![ROp::PushB(vec![1u8; siglen]), ROp::PushB(vec![2u8; keylen]), msg, ROp::SigEOk(n), ROp::PushIC(be(0)), ROp::Eql]),
+                ..base
+            }
+        }
         0 => Lock { fam: "sig-legacy", cov: CovSpec::SigLegacy(key).bytes(), sig: Some((true, key)), ..base },
         1 | 2 => Lock { fam: "sig-new", cov: CovSpec::SigNew(key).bytes(), sig: Some((false, key)), ..base },
         3 => {
@@ -466,12 +479,12 @@ pub fn run(ctx: &Ctx) -> (Outcome, String, Option<bool>) {
         |c, st, shard| {
             let r = check_case(c, st, shard);
             if st.want_sample() {
-                st.sample(|| json!({"families": c.fams.iter().map(|f| f.0 % 14).collect::<Vec<_>>(), "tamper": c.tamper % 16, "order": c.order}));
+                st.sample(|| json!({"families": c.fams.iter().map(|f| f.0 % 15).collect::<Vec<_>>(), "tamper": c.tamper % 16, "order": c.order}));
             }
             r
         },
     );
-    let rule = "Generated: 1-5 coins (one spend in ten: 24-70 coins from 2-4 families, many sharing a covenant hash) locked by covenants from the families legacy signature (slot 0), new signature (slot = input position), hash-lock on tx.data, time-lock on the previous header's height, creation-height bound, spender-index bound, value bound, denomination + additional-data bound, parent-output-index bound, constant false / empty stack / non-integer result / failing program, undecodable bytes, and type-aware random programs; created by one funding transaction at height >= 1 on Custom02/Custom08/Testnet, then spent together with a fee-paying coin by one transaction (ordinary in 7 of 12 cases, otherwise of kind faucet, swap, deposit or withdrawal) with the inputs in a generated order, and tampered in 9 ways (signature bit flip, wrong key, swapped slots, signatures dropped, outputs or data changed after signing, covenant omitted / replaced by garbage / by another program). Balance and fee are valid by construction. Oracle: apply_tx accepts <=> for every input the transaction carries bytes hashing to the coin's covenant hash that decode and that RefVM evaluates to a truthy value on (transaction, that input's id, value, denomination, additional data, creation height, position, previous header). Non-trivial = a spend of >=2 inputs whose verdicts differ, or any tampered spend; distinct by (families in input order, tamper, verdict vector).".to_string();
+    let rule = "Generated: 1-5 coins (one spend in ten: 24-70 coins from 2-4 families, many sharing a covenant hash) locked by covenants from the families legacy signature (slot 0), new signature (slot = input position), hash-lock on tx.data, time-lock on the previous header's height, creation-height bound, spender-index bound, value bound, denomination + additional-data bound, parent-output-index bound, constant false / empty stack / non-integer result / failing program, negated signature checks on abnormal operands, undecodable bytes, and type-aware random programs; created by one funding transaction at height >= 1 on Custom02/Custom08/Testnet, then spent together with a fee-paying coin by one transaction (ordinary in 7 of 12 cases, otherwise of kind faucet, swap, deposit or withdrawal) with the inputs in a generated order, and tampered in 9 ways (signature bit flip, wrong key, swapped slots, signatures dropped, outputs or data changed after signing, covenant omitted / replaced by garbage / by another program). Balance and fee are valid by construction. Oracle: apply_tx accepts <=> for every input the transaction carries bytes hashing to the coin's covenant hash that decode and that RefVM evaluates to a truthy value on (transaction, that input's id, value, denomination, additional data, creation height, position, previous header). Non-trivial = a spend of >=2 inputs whose verdicts differ, or any tampered spend; distinct by (families in input order, tamper, verdict vector).".to_string();
     (out, rule, None)
 }
 
